@@ -25,7 +25,13 @@ def run_property(prop, tier, root, out_dir=None, quiet=False, only_rules=None):
     mod = importlib.import_module("vf.props.%s" % prop.lower())
     run = report.Run(prop, tier, root)
     run.only_rules = only_rules
-    mod.check(prog, run)
+    run.aborted = None
+    try:
+        mod.check(prog, run)
+    except model.AnalysisError as e:
+        # keep what the rules that did run have found: a violation already located is reported (exit 1);
+        # without one the run is an analysis error (exit 2)
+        run.aborted = str(e)
     return run
 
 
